@@ -131,6 +131,14 @@ func (c *Ctx) c08Enforcer(pm *pairModel) {
 		if maxParam != nil && v == maxParam {
 			return true
 		}
+		// the parameter captured by a closure of the enforcer
+		if ad := eng.LoadAddr(v); ad != nil && maxParam != nil {
+			if cell := eng.CellOf(ad); cell != nil {
+				if sts := eng.CellStores(cell); len(sts) == 1 && eng.StripConv(sts[0].Val) == maxParam {
+					return true
+				}
+			}
+		}
 		if f := eng.LoadedField(v); f != nil && limitFields[f] {
 			return true
 		}
@@ -272,14 +280,27 @@ func (c *Ctx) c08Cap(pm *pairModel) {
 					if !isIncrementOf(s.Store.Val, f) {
 						continue
 					}
-					// inside a loop guarded by len(messages) REL cap
-					for _, b := range s.Fn.Blocks {
-						rel, ok := eng.EdgeRel(b, 0)
-						if !ok {
-							continue
+					// inside a loop guarded by len(messages) REL cap, or in a helper such a loop calls
+					guardedIn := func(g *ssa.Function, at *ssa.BasicBlock) bool {
+						for _, b := range g.Blocks {
+							rel, ok := eng.EdgeRel(b, 0)
+							if !ok {
+								continue
+							}
+							if lx := eng.LenOf(rel.X); lx != nil && eng.SameField(eng.LoadedField(lx), pm.memMsgs) && b.Succs[0].Dominates(at) && len(loopHeaders(at)) > 0 {
+								return true
+							}
 						}
-						if lx := eng.LenOf(rel.X); lx != nil && eng.SameField(eng.LoadedField(lx), pm.memMsgs) && b.Succs[0].Dominates(s.Store.Block()) && len(loopHeaders(s.Store.Block())) > 0 {
-							fFirst = f
+						return false
+					}
+					if guardedIn(s.Fn, s.Store.Block()) {
+						fFirst = f
+					} else {
+						for _, cs := range p.StaticCallSites(s.Fn) {
+							site := cs.Instr.(ssa.Instruction)
+							if guardedIn(site.Parent(), site.Block()) {
+								fFirst = f
+							}
 						}
 					}
 				}
@@ -290,14 +311,21 @@ func (c *Ctx) c08Cap(pm *pairModel) {
 	if fCap == nil || fFileCap == nil {
 		return
 	}
-	// mem
+	// mem: every guard `len(messages) REL cap` that controls an eviction; the eviction may be
+	// a delete in the loop body itself or in helpers the body calls
 	nMem := 0
+	memFns := pkgFuncs(p, "pkg/storage/mem")
+	sortFuncs(memFns)
+	isDeleteSite := map[ssa.Instruction]removeSite{}
 	for _, s := range pm.removes {
-		if s.store != "mem" || s.kind != "delete" {
-			continue
+		if s.store == "mem" && s.kind == "delete" {
+			isDeleteSite[s.in] = s
 		}
-		fn := s.fn
-		// is this delete inside a loop guarded by len(messages) REL cap ?
+	}
+	type chainStep struct {
+		call *ssa.Call // call in the previous function leading on
+	}
+	for _, fn := range memFns {
 		for _, b := range fn.Blocks {
 			rel, ok := eng.EdgeRel(b, 0)
 			if !ok {
@@ -307,13 +335,64 @@ func (c *Ctx) c08Cap(pm *pairModel) {
 			if lx == nil || !eng.SameField(eng.LoadedField(lx), pm.memMsgs) || !eng.SameField(eng.LoadedField(eng.StripConv(p.Actual(eng.StripConv(rel.Y)))), fCap) {
 				continue
 			}
-			if !b.Succs[0].Dominates(s.in.Block()) {
+			body := b.Succs[0]
+			// find the delete: directly in the guarded region, or through calls (depth <= 3)
+			var del *ssa.Call
+			var chain []*ssa.Call
+			var find func(g *ssa.Function, region func(*ssa.BasicBlock) bool, depth int, path []*ssa.Call) bool
+			find = func(g *ssa.Function, region func(*ssa.BasicBlock) bool, depth int, path []*ssa.Call) bool {
+				if depth > 3 {
+					return false
+				}
+				found := false
+				eng.EachInstr(g, func(in ssa.Instruction) {
+					if found || !region(in.Block()) {
+						return
+					}
+					call, ok := in.(*ssa.Call)
+					if !ok {
+						return
+					}
+					if _, isDel := isDeleteSite[in]; isDel {
+						del, chain, found = call, append([]*ssa.Call{}, path...), true
+						return
+					}
+					if h := eng.StaticCallee(call.Common()); h != nil && eng.FuncPkgPath(h) == eng.FuncPkgPath(fn) && len(h.Blocks) > 0 && h != g {
+						if find(h, func(*ssa.BasicBlock) bool { return true }, depth+1, append(path, call)) {
+							found = true
+						}
+					}
+				})
+				return found
+			}
+			if !find(fn, func(bb *ssa.BasicBlock) bool { return body.Dominates(bb) }, 0, nil) {
 				continue
 			}
 			nMem++
 			cons := "mem:" + shortFn(eng.Outer(fn))
 			site := p.InstrPos(eng.IfOf(b))
-			// insert must dominate the loop
+			// the deleted key, followed back through the call chain
+			key := del.Call.Args[1]
+			for i := len(chain) - 1; i >= 0; i-- {
+				prm, isP := eng.StripConv(key).(*ssa.Parameter)
+				if !isP {
+					break
+				}
+				pi := eng.ParamIndex(prm)
+				if pi < 0 || pi >= len(chain[i].Call.Args) || eng.StaticCallee(chain[i].Common()) != prm.Parent() {
+					break
+				}
+				key = chain[i].Call.Args[pi]
+			}
+			keyOK := false
+			if fFirst != nil {
+				for _, cand := range []ssa.Value{key, eng.Unwrap(key)} {
+					if kc, ok := cand.(*ssa.Call); ok && eng.CalleeName(kc.Common()) == "strconv.Itoa" && eng.SameField(eng.LoadedField(kc.Call.Args[0]), fFirst) {
+						keyOK = true
+					}
+				}
+			}
+			// insert must dominate the guard (in the guard's function, or at its call sites)
 			insDom := false
 			for _, a := range pm.adds {
 				if a.store == "mem" && a.fn == fn && eng.Dominates(a.in, eng.IfOf(b)) {
@@ -321,8 +400,6 @@ func (c *Ctx) c08Cap(pm *pairModel) {
 				}
 			}
 			if !insDom {
-				// the loop lives in a helper: at every call site of the helper a call that
-				// performs the insert must dominate
 				sites := p.StaticCallSites(fn)
 				all := len(sites) > 0
 				for _, cs := range sites {
@@ -345,26 +422,17 @@ func (c *Ctx) c08Cap(pm *pairModel) {
 				}
 				insDom = all
 			}
-			call := s.in.(*ssa.Call)
-			keyOK := false
-			if kc, ok := call.Call.Args[1].(*ssa.Call); ok && eng.CalleeName(kc.Common()) == "strconv.Itoa" && eng.SameField(eng.LoadedField(kc.Call.Args[0]), fFirst) {
-				keyOK = true
-			}
-			// or a local holding Itoa(first)
-			if !keyOK {
-				if kc, ok := eng.Unwrap(call.Call.Args[1]).(*ssa.Call); ok && eng.CalleeName(kc.Common()) == "strconv.Itoa" && eng.SameField(eng.LoadedField(kc.Call.Args[0]), fFirst) {
-					keyOK = true
-				}
-			}
 			switch {
 			case !insDom:
 				r.Bad("C08/CAP/order", cons, site, "cap loop is not preceded by the insert; with `>` the mailbox would exceed the cap by one")
 			case rel.Op != token.GTR:
 				r.Bad("C08/CAP/order", cons, site, "cap loop after the insert must run while len(messages) > cap; found `%s`", rel.Op)
+			case fFirst == nil:
+				r.Bad("C08/CAP/order", cons, site, "cap eviction keeps no cursor that advances over the ids (no integer field of the mailbox is incremented in an eviction loop): with gaps in the id sequence (a message removed from the middle) the computed key misses and the mailbox stays over the cap")
 			case !keyOK:
-				r.Bad("C08/CAP/order", cons, site, "cap eviction does not delete key strconv.Itoa(mbox.first): not oldest-first")
+				r.Bad("C08/CAP/order", cons, site, "cap eviction does not delete key strconv.Itoa(mbox.%s): not oldest-first", fFirst.Name())
 			default:
-				r.Ok("C08/CAP/order", cons, site, "after the insert, evicts Itoa(first) while len(messages) > cap")
+				r.Ok("C08/CAP/order", cons, site, "after the insert, evicts Itoa(%s) while len(messages) > cap", fFirst.Name())
 			}
 		}
 	}
